@@ -93,12 +93,12 @@ void doExecute(RunState& rs, IWorld& w, const HistOp& op, bool simulate, const s
         w.topExecute(op.flags);
         // the level arguments of the top-tree calls: the extended tree has nbLevelsAbove0 + 5 levels (documented in the
         // algorithm's GenerateAboveTreeConfiguration); M2M goes from H-2 down to 3, M2L over 3..H-2, L2L from 3 up to H-2
-        if (rs.sc.topLevels >= 0) {
+        if (rs.sc.topLevels >= -1) {   // -1: "done already by the real periodic FMM" -- no kernel call at all
             const long H = rs.sc.topLevels + 5;
             std::vector<std::pair<int, long>> expect;
             if (op.flags & F_M2M) for (long l = H - 2; l >= 3; --l) expect.emplace_back(OP_M2M, l);
             if (op.flags & F_M2L) for (long l = 3; l <= H - 2; ++l) expect.emplace_back(OP_M2L, l);
-            if (op.flags & F_L2L) { for (long l = 3; l <= H - 3; ++l) expect.emplace_back(OP_L2L, l); expect.emplace_back(OP_L2L, H - 2); }
+            if ((op.flags & F_L2L) && rs.sc.topLevels >= 0) { for (long l = 3; l <= H - 3; ++l) expect.emplace_back(OP_L2L, l); expect.emplace_back(OP_L2L, H - 2); }
             std::vector<std::pair<int, long>> got;
             for (size_t i = firstCall; i < ctx.calls.size(); ++i) got.emplace_back(ctx.calls[i].op, ctx.calls[i].level);
             if (got != expect) {
@@ -252,6 +252,27 @@ void checkCounters(RunState& rs, IWorld& w, size_t nbOpsDone) {
             ctx.addViolation("counter", std::string(names[k]) + (grew && sc.isTaskBased() && merged[size_t(k)] > ref.counts[size_t(k)] ? "@threads-grew-overcount" : ""),
                              std::string("merged ") + names[k] + " counter is " + std::to_string(merged[size_t(k)]) + " but the tree implies " + std::to_string(ref.counts[size_t(k)])
                              + " after " + std::to_string(flagSeq.size()) + " execute call(s) (" + std::to_string(per.size()) + " kernel copies)");
+    // the periodic top-tree algorithm's own kernel: the extended tree has nbLevelsAbove0 + 5 levels; M2M aggregates the level-1 cells of
+    // the real tree once and then 8 identical children per added level, M2L sees 7^3 - 3^3 images (one added level) or 6^3 - 3^3 per
+    // added level, L2L hands down to one child per added level and finally to the level-1 cells.  Nothing at all for nbLevelsAbove0 = -1.
+    std::array<long, 7> topc{{0, 0, 0, 0, 0, 0, 0}};
+    if (w.topCounters(topc)) {
+        long n1 = 0;
+        for (const CellRec& c : w.view().cells) if (c.level == 1 && c.tree == 0) n1 += 1;
+        const long L = sc.topLevels;
+        std::array<long, 7> expect{{0, 0, 0, 0, 0, 0, 0}};
+        for (size_t i = 0; i < nbOpsDone && i < sc.history.size(); ++i) {
+            const HistOp& op = sc.history[i];
+            if (op.op != "top" || L < 0) continue;
+            if (op.flags & F_M2M) expect[1] += n1 + 8 * L;
+            if (op.flags & F_M2L) expect[2] += (L == 0 ? 316 : 189 * (L + 1));
+            if (op.flags & F_L2L) expect[3] += L + n1;
+        }
+        for (int k = 0; k < 7; ++k)
+            if (topc[size_t(k)] != expect[size_t(k)])
+                ctx.addViolation("counter", std::string("top.") + names[k], std::string("the top-tree algorithm's ") + names[k] + " counter is " + std::to_string(topc[size_t(k)])
+                                 + " but the extended tree (nbLevelsAbove0 = " + std::to_string(L) + ", " + std::to_string(n1) + " level-1 cells) implies " + std::to_string(expect[size_t(k)]));
+    }
     rs.drain("run");
 }
 
